@@ -735,4 +735,108 @@ theorem run_progress {c : Cfg} (hA : c.fixA = true) (hB : c.fixB = true) (ops : 
         omega
       · omega
 
+/-! ## a dispatcher that takes one message per cycle -/
+
+theorem evalInst_out_le (c : Cfg) (s : State) (w : Wf) (h : s.out.length ≤ c.aceCap) :
+    (evalInst c s w).s.out.length ≤ c.aceCap := by
+  unfold evalInst
+  split
+  · unfold evalSEndPgm
+    split
+    · exact h
+    · split
+      · split
+        · rename_i hroom
+          simp only [List.length_append, List.length_cons, List.length_nil]; omega
+        · exact h
+      · split
+        · exact h
+        · split <;> exact h
+  · split
+    · unfold evalSBarrier
+      simp only
+      split
+      · exact h
+      · split <;> exact h
+    · split
+      · unfold evalSWaitCnt
+        split <;> exact h
+      · exact h
+
+theorem evalOne_out_le (c : Cfg) (sp : State × Bool) (j : Nat) (h : sp.1.out.length ≤ c.aceCap) :
+    (evalOne c sp j).1.out.length ≤ c.aceCap := by
+  unfold evalOne
+  split
+  · exact h
+  · split
+    · exact h
+    · rename_i w _
+      split
+      · exact h
+      · show (finishOne j w.wg (evalInst c sp.1 w)).out.length ≤ _
+        rw [finishOne_out]; exact evalInst_out_le c sp.1 w h
+
+theorem step_out_le (c : Cfg) (s : State) (o : Op) (h : s.out.length ≤ c.aceCap) :
+    (step c s o).1.out.length ≤ c.aceCap := by
+  cases o with
+  | eval =>
+    show (s.exec.foldl (evalOne c) (({ s with exec := [] } : State), false)).1.out.length ≤ _
+    have : ∀ (l : List Nat) (sp : State × Bool), sp.1.out.length ≤ c.aceCap →
+        (l.foldl (evalOne c) sp).1.out.length ≤ c.aceCap := by
+      intro l
+      induction l with
+      | nil => intro sp h; exact h
+      | cons i l ih => intro sp h; exact ih _ (evalOne_out_le c sp i h)
+    exact this _ _ h
+  | wfComp i =>
+    show (wfComp c s i).1.out.length ≤ _
+    unfold wfComp
+    split
+    · exact h
+    · simp only
+      split
+      · split
+        · simp only [List.length_append, List.length_cons, List.length_nil]; omega
+        · exact h
+      · exact h
+  | drain k =>
+    show (s.out.drop k).length ≤ _
+    rw [List.length_drop]; omega
+  | _ => exact h
+
+/-- `n` cycles in each of which the dispatcher takes one message and the scheduler evaluates -/
+def fairCycles : Nat → List Op
+  | 0 => []
+  | n + 1 => .drain 1 :: .eval :: fairCycles n
+
+theorem fairCycles_facts (c : Cfg) (hcap : 0 < c.aceCap) (i : Nat) (n : Nat) (s : State)
+    (h : s.out.length ≤ c.aceCap) :
+    legalRun c s (fairCycles n) = true ∧ (fairCycles n).all (notMemIssue i) = true ∧
+    n ≤ roomEvals c s (fairCycles n) := by
+  induction n generalizing s with
+  | zero => exact ⟨rfl, rfl, Nat.le_refl _⟩
+  | succ n ih =>
+    have h1 := step_out_le c s (.drain 1) h
+    have h2 := step_out_le c (step c s (.drain 1)).1 .eval h1
+    obtain ⟨a, b, d⟩ := ih (step c (step c s (.drain 1)).1 .eval).1 h2
+    have hroom : (step c s (.drain 1)).1.out.length < c.aceCap := by
+      show (s.out.drop 1).length < _
+      rw [List.length_drop]; omega
+    refine ⟨?_, ?_, ?_⟩
+    · simp only [fairCycles, legalRun, legal, Bool.true_and]; exact a
+    · simp only [fairCycles, List.all_cons, notMemIssue, Bool.true_and]; exact b
+    · have e1 : ¬ (Op.drain 1 = Op.eval ∧ s.out.length < c.aceCap) := fun hh => by cases hh.1
+      have e2 : Op.eval = Op.eval ∧ (step c s (.drain 1)).1.out.length < c.aceCap := ⟨rfl, hroom⟩
+      show n + 1 ≤ roomEvals c s (.drain 1 :: .eval :: fairCycles n)
+      rw [roomEvals, roomEvals, if_neg e1, if_pos e2]
+      omega
+
+theorem run_out_le (c : Cfg) (ops : List Op) (s : State) (h : s.out.length ≤ c.aceCap) :
+    (run c s ops).out.length ≤ c.aceCap := by
+  unfold run
+  induction ops generalizing s with
+  | nil => exact h
+  | cons o ops ih => exact ih _ (step_out_le c s o h)
+
+
 end C14
